@@ -422,7 +422,7 @@ func C12(tier string) int {
 	run.Coverage = map[string]any{
 		"evaluations":         cells,
 		"distinct_nontrivial": len(perNT),
-		"rule":                "clusters of n real instances wired through their real receiver handlers (messages marshalled and unmarshalled); grid: n in 2..max, every t in 0..n+1, identifier sets (small, 10^6+i, 2^64-i, mixed), every initiator; for a valid t every order of participants returned by the peer selection and every commit completion order (all n! for small n, rotations+reversal above), and one tampered commit reply per participant and kind; oracle on success: every participant holds the account with the returned composite key, same vector/threshold/participants, share consistent with the vector, immediate signing and listing through its own services, every t-subset of partial signatures recovers a valid composite signature and no (t-1)-subset does; distinct = (n,t) cells with at least one successful generation",
+		"rule":                "clusters of n real instances wired through their real receiver handlers (messages marshalled and unmarshalled); after every successful generation each participant must at once sign with the new account addressed by name and addressed by its share public key, and list it; grid: n in 2..max, every t in 0..n+1, identifier sets (small, 10^6+i, 2^64-i, mixed), every initiator; for a valid t every order of participants returned by the peer selection and every commit completion order (all n! for small n, rotations+reversal above), and one tampered commit reply per participant and kind; oracle on success: every participant holds the account with the returned composite key, same vector/threshold/participants, share consistent with the vector, immediate signing and listing through its own services, every t-subset of partial signatures recovers a valid composite signature and no (t-1)-subset does; distinct = (n,t) cells with at least one successful generation",
 		"samples":             samples.List(),
 		"exhaustive":          !capped && len(vacuous) == 0,
 		"max_n":               maxN,
